@@ -21,7 +21,7 @@ fn model(variant: usize) -> ModelDef {
         r: vec![("r".into(), rt.clone()), ("r2".into(), rt.clone())],
         p: vec![("p".into(), pt.clone()), ("p2".into(), pt.clone())],
         g: vec![("g".into(), if variant == 3 { 3 } else { 2 })],
-        e: vec![("e".into(), if variant == 1 { E_DENY.into() } else { E_BOTH.into() }), ("e2".into(), E_BOTH.into())],
+        e: vec![("e".into(), if variant == 1 { E_DENY.into() } else { E_BOTH.into() }), ("e2".into(), E_ALLOW.into())],
         m: vec![("m".into(), m1.sexpr(), m1.text("r", &rt, "p", &pt)),
                 ("m2".into(), acl.sexpr(), acl.text("r2", &rt, "p2", &pt)),
                 ("m3".into(), sup.sexpr(), sup.text("r2", &rt, "p2", &pt))],
@@ -59,7 +59,8 @@ fn gen_step(rng: &mut Rng) -> St {
         6 | 7 => St::M(MOp::Rm("p".into(), (*rng.pick(&["p", "p2"])).into(), gen_p(rng, &subs))),
         8..=10 => St::M(MOp::Add("g".into(), "g".into(), sv(&[*rng.pick(&subs), *rng.pick(&["admin", "bob"])]))),
         11 => St::M(MOp::Rm("g".into(), "g".into(), sv(&[*rng.pick(&subs), *rng.pick(&["admin", "bob"])]))),
-        12 => St::M(MOp::AddM("p".into(), "p".into(), vec![gen_p(rng, &subs), gen_p(rng, &subs)])),
+        12 => if rng.chance(1, 2) { St::M(MOp::AddM("p".into(), "p".into(), vec![gen_p(rng, &subs), gen_p(rng, &subs)])) }
+              else { St::M(MOp::AddM("g".into(), "g".into(), vec![sv(&[*rng.pick(&subs), *rng.pick(&["admin", "bob"])]), sv(&["bob"])])) },
         13 => St::M(MOp::RmF("p".into(), "p".into(), 0, sv(&[*rng.pick(&subs)]))),
         14 => St::M(MOp::DelUser((*rng.pick(&subs)).into())),
         15 => St::M(MOp::Clear),
@@ -90,6 +91,8 @@ fn run_once(rec: &mut Recorder, w: &mut World, cached: bool, hist: &[St], reqf: 
         // a hand-built context that differs from suffix 2 only in its matcher
         outs.push(rec.exec(w, &format!("e.enfx\tr2\tp2\te2\tm3\t{}", reqf)));
         outs.push(rec.exec(w, &format!("e.enfx\tr2\tp2\te2\tm2\t{}", reqf)));
+        // ... and one that differs from it only in the effect section
+        outs.push(rec.exec(w, &format!("e.enfx\tr2\tp2\te\tm2\t{}", reqf)));
     };
     ask(rec, w, &mut outs);
     for s in hist {
@@ -119,6 +122,7 @@ pub fn run(rec: &mut Recorder, w: &mut World, tier: &str, seed: u64) {
         St::M(MOp::Add("p".into(), "p".into(), sv(&["alice", "alice", "read", "allow"]))),
         St::M(MOp::Add("p".into(), "p2".into(), sv(&["bob", "d1", "read", "allow"]))),
         St::M(MOp::Add("g".into(), "g".into(), sv(&["alice", "admin"]))),
+        St::M(MOp::AddM("g".into(), "g".into(), vec![sv(&["bob", "admin"]), sv(&["bob"])])),
         St::M(MOp::Rm("p".into(), "p".into(), sv(&["alice", "d1", "read", "allow"]))),
         St::M(MOp::Clear), St::Load, St::LoadF, St::SetModel(1), St::SetModel(2), St::SetModel(3),
         St::SetAdapter(vec![sv(&["p", "p", "bob", "d2", "read", "allow"])]), St::SetRm, St::Build,
@@ -145,9 +149,9 @@ pub fn run(rec: &mut Recorder, w: &mut World, tier: &str, seed: u64) {
         let plain = run_once(rec, w, false, hist, &reqf);
         if cached != plain {
             let i = cached.iter().zip(plain.iter()).position(|(a, c)| a != c).unwrap_or(0);
-            let step = i / 4;
+            let step = i / 5;
             let descr: Vec<String> = hist.iter().take(step).map(|s| st_line(s).join(" / ").replace('\t', " ")).collect();
-            rec.fail("stale-cached-decision", format!("after {}: cached enforcer answered {} where the uncached twin answers {} (query kind {})", descr.join(" ; "), cached[i], plain[i], ["enforce", "enforce_with_context(2)", "context r2/p2/e2/m3", "context r2/p2/e2/m2"][i % 4]));
+            rec.fail("stale-cached-decision", format!("after {}: cached enforcer answered {} where the uncached twin answers {} (query kind {})", descr.join(" ; "), cached[i], plain[i], ["enforce", "enforce_with_context(2)", "context r2/p2/e2/m3", "context r2/p2/e2/m2", "context r2/p2/e/m2"][i % 5]));
         }
         for s in hist { rec.count(&format!("op:{}", match s { St::M(op) => op.kind(), St::Load => "load_policy", St::LoadF => "load_filtered_policy", St::SetModel(_) => "set_model", St::SetAdapter(_) => "set_adapter", St::SetRm => "set_role_manager", St::Build => "build_role_links", St::Enable(_) => "enable_enforce", St::SetEft => "set_effector", St::AddFn => "add_function", St::AutoBuild(_) => "auto_build", St::AutoSave(_) => "auto_save", St::Rejected(_) => "rejected" })); }
         rec.nontrivial_case(&format!("{:?}", hist));
